@@ -381,6 +381,21 @@ func ScalarSweeps(part, parts int, maxDelta uint64, f func(SweepCase)) {
 			}
 		}
 	}
+	// every message of the alphabet behind a delta of every encoded width (an
+	// event assembled in one piece depends on both sizes together)
+	if part == 3%parts {
+		for _, v := range []uint64{0, 127, 128, 16383, 16384, 2097151, 2097152, 0x0FFFFFFF, 0x10000000, 0xFFFFFFFF} {
+			if v > maxDelta {
+				continue
+			}
+			for m := range al {
+				for _, nors := range []bool{false, true} {
+					ops := []Op{{Kind: OpAdd, D: 3, M1: 0}, {Kind: OpAdd, D: uint32(v), M1: m}, {Kind: OpAdd, D: 4, M1: 1}, {Kind: OpClose, D: 5}, {Kind: OpSMFAdd}}
+					f(SweepCase{Cfg{Ctor: 0, NoRS: nors, TF: smf.MetricTicks(480)}, al, ops, "delta-by-message", fmt.Sprintf("%d/%s", v, al[m].Name)})
+				}
+			}
+		}
+	}
 	// two events of more than a megabyte in one track (a chunk body that has
 	// outgrown every growth step when the second one arrives)
 	if part == 2%parts {
